@@ -565,6 +565,48 @@ def check_derived(case: dict, rng: random.Random) -> Tuple[Optional[str], List[s
     return None, fails, info
 
 
+def gen_flag_pair(rng: random.Random) -> dict:
+    import re
+    word = "".join(rng.choice("abcXYZ") for _ in range(rng.randint(1, 4)))
+    src = rng.choice([word, word + "$", "^" + word, word + ".", word + r"\s*$", "(?:" + word + ")+"])
+    flag_pool = [0, re.I, re.S, re.M, re.I | re.S, re.X]
+    f1 = rng.choice(flag_pool)
+    f2 = f1 if rng.random() < 0.2 else rng.choice(flag_pool)
+    return {"kind": "regex-flags", "word": word, "src": src, "flags": [int(f1), int(f2)],
+            "wrap": rng.choice(["bare", "list", "optional"])}
+
+
+def check_flag_pair(case: dict) -> Tuple[List[str], dict]:
+    """two string validators whose RegexPredicate patterns have one source and (mostly) different flags, bare or inside a
+    container: `==` may say either, but when it says equal the two must answer alike (model-free)"""
+    import re
+    from koda_validate import ListValidator, OptionalValidator, RegexPredicate, StringValidator
+    word, src, (f1, f2), wrap = case["word"], case["src"], case["flags"], case["wrap"]
+
+    def mk(fl: int) -> Any:
+        v: Any = StringValidator(RegexPredicate(re.compile(src, fl)))
+        return ListValidator(v) if wrap == "list" else OptionalValidator(v) if wrap == "optional" else v
+    v, w = mk(f1), mk(f2)
+    strs = [word, word.lower(), word.upper(), word + "\n", word + "\n" + word, " " + word, word + " ", word + "q", ""]
+    xs = [[x] for x in strs] if wrap == "list" else strs
+    info: dict = {"xs": xs}
+    try:
+        info["eq"] = bool(v == w)
+    except Exception as e:  # noqa
+        return [f"== raised {type(e).__name__}"], info
+    fails: List[str] = []
+    if f1 == f2 and not info["eq"]:
+        fails.append("two validators built from the same pattern source and flags compare unequal")
+    if info["eq"]:
+        for x in xs:
+            r1, r2 = v(x), w(x)
+            if r1.is_valid != r2.is_valid:
+                fails.append(f"{wrap} StringValidator(RegexPredicate(re.compile({src!r}, {int(f1)}))) == the same with flags "
+                             f"{int(f2)}, but they answer differently on {x!r}")
+                break
+    return fails, info
+
+
 def shard(seed: int, shard_i: int, n: int, opts: dict) -> dict:
     rng = random.Random(f"{seed}-{shard_i}-c19{opts.get('salt', '')}")
     g = VGen(rng, async_rate=0.1, user_rate=0.1)
@@ -634,6 +676,15 @@ def shard(seed: int, shard_i: int, n: int, opts: dict) -> dict:
         stats[f"derived:eq={dinfo.get('eq')}"] += 1
         for f in dfails:
             failures.append({"property": "C19", "case": dc, "xd": dc["xs"], "what": f, "real": dinfo})
+    # facets the description language does not have: the flags of a compiled pattern
+    frng = random.Random(f"{seed}-{shard_i}-c19f{opts.get('salt', '')}")
+    for _ in range(max(10, n // 40)):
+        fc = gen_flag_pair(frng)
+        fails, finfo = check_flag_pair(fc)
+        evaluated += 1
+        stats[f"regex-flags:eq={finfo.get('eq')}"] += 1
+        for f in fails:
+            failures.append({"property": "C19", "case": fc, "xd": finfo.get("xs", []), "what": f, "real": finfo})
     # executable instances of C19_rename, and the decoder's agreement with `V.rn`
     from . import driver
     answers = driver.run_batch(reqs) if reqs else []
@@ -683,5 +734,7 @@ def replay_case(case: dict) -> List[str]:
     if case.get("kind") == "derived":
         unb, fails, info = check_derived(case, random.Random(0))
         return fails if not unb else ["case cannot be built: " + unb]
+    if case.get("kind") == "regex-flags":
+        return check_flag_pair(case)[0]
     unb, fails, info = check_case(case)
     return fails if not unb else ["case cannot be built: " + unb]
